@@ -9,6 +9,7 @@ import (
 	"sort"
 	"strings"
 
+	"github.com/JunNishimura/Goit/internal/fsutil"
 	"github.com/JunNishimura/Goit/internal/object"
 	"github.com/JunNishimura/Goit/internal/sha"
 )
@@ -225,19 +226,15 @@ func (idx *Index) read(rootGoitPath string) error {
 
 func (idx *Index) write(rootGoitPath string) error {
 	indexPath := filepath.Join(rootGoitPath, "index")
-	f, err := os.Create(indexPath)
-	if err != nil {
-		return fmt.Errorf("fail to create .goit/index: %w", err)
-	}
-	defer f.Close()
 
 	// fixed length encoding
-	if err := binary.Write(f, binary.BigEndian, &idx.Header); err != nil {
+	var buf bytes.Buffer
+	if err := binary.Write(&buf, binary.BigEndian, &idx.Header); err != nil {
 		return fmt.Errorf("fail to write fixed-length encoding: %w", err)
 	}
 
 	// variable length encoding
-	var data []byte
+	data := buf.Bytes()
 	for _, entry := range idx.Entries {
 		bNameLength := make([]byte, 2)
 		binary.BigEndian.PutUint16(bNameLength, entry.NameLength)
@@ -245,8 +242,8 @@ func (idx *Index) write(rootGoitPath string) error {
 		data = append(data, bNameLength...)
 		data = append(data, entry.Path...)
 	}
-	if _, err := f.Write(data); err != nil {
-		return fmt.Errorf("fail to write variable-length encoding: %w", err)
+	if err := fsutil.WriteFileAtomic(indexPath, filepath.Join(rootGoitPath, "tmp-index"), data); err != nil {
+		return fmt.Errorf("fail to write .goit/index: %w", err)
 	}
 
 	return nil
